@@ -1,4 +1,6 @@
 mod algo;
+mod gml;
+mod par;
 mod gens;
 mod algo2;
 mod watchdog;
@@ -38,12 +40,41 @@ fn geti(m: &HashMap<String, String>, k: &str, d: i64) -> i64 {
 
 fn main() {
     // panics inside the library under test are data: keep stderr quiet
-    std::panic::set_hook(Box::new(|_| {}));
+    // (set GV_PANIC_TRACE=1 to see them, e.g. to debug the harness itself)
+    if std::env::var("GV_PANIC_TRACE").is_err() {
+        std::panic::set_hook(Box::new(|_| {}));
+    }
     let (cmd, m) = args_map();
     match cmd.as_str() {
         "mut" => cmd_mut(&m),
         "observe" => cmd_observe(&m),
         "worker" => cmd_worker(),
+        "par" => {
+            let file = std::fs::File::create(m.get("out").expect("--out")).expect("create out");
+            let mut em = mutgen::Emitter::new(BufWriter::new(file));
+            par::par_events(&mut em, geti(&m, "thorough", 0) == 1, geti(&m, "seed", 0) as u64);
+            println!("{{\"events\":{}}}", em.next_id - 1);
+        }
+        "gml-rt" => {
+            let file = std::fs::File::create(m.get("out").expect("--out")).expect("create out");
+            let mut em = mutgen::Emitter::new(BufWriter::new(file));
+            gml::roundtrip_events(&mut em, geti(&m, "n", 1000) as usize, geti(&m, "seed", 0) as u64, m.get("scratch").expect("--scratch"));
+            println!("{{\"events\":{}}}", em.next_id - 1);
+        }
+        "gml-docs" => {
+            let file = std::fs::File::create(m.get("out").expect("--out")).expect("create out");
+            let mut em = mutgen::Emitter::new(BufWriter::new(file));
+            let mut pool = watchdog::Pool::new();
+            gml::doc_events(&mut em, m.get("in").expect("--in"), &mut pool);
+            println!("{{\"events\":{},\"child_calls\":{},\"hangs\":{},\"aborts\":{}}}", em.next_id - 1, pool.calls, pool.hangs, pool.aborts);
+        }
+        "gml-corrupt" => {
+            let file = std::fs::File::create(m.get("out").expect("--out")).expect("create out");
+            let mut em = mutgen::Emitter::new(BufWriter::new(file));
+            let mut pool = watchdog::Pool::new();
+            gml::corruption_events(&mut em, geti(&m, "n", 20) as usize, geti(&m, "stride", 3) as usize, geti(&m, "seed", 0) as u64, &mut pool);
+            println!("{{\"events\":{},\"child_calls\":{},\"hangs\":{},\"aborts\":{}}}", em.next_id - 1, pool.calls, pool.hangs, pool.aborts);
+        }
         "gens" => {
             let file = std::fs::File::create(m.get("out").expect("--out")).expect("create out");
             let mut em = mutgen::Emitter::new(BufWriter::new(file));
@@ -177,6 +208,9 @@ fn cmd_worker() {
         let line = match line { Ok(l) => l, Err(_) => break };
         let req: serde_json::Value = match serde_json::from_str(&line) { Ok(v) => v, Err(_) => continue };
         let out = algo::guarded(|| {
+            if req["call"]["kind"] == "graphml_read" {
+                return gml::read_call(req["call"]["doc"].as_str().unwrap(), SpecsJ::from_json(&req["call"]["specs"]));
+            }
             let case = &req["case"];
             let specs = SpecsJ::from_json(&case["specs"]);
             let ops: Vec<Op> = case["ops"].as_array().unwrap().iter().map(Op::from_json).collect();
